@@ -103,6 +103,11 @@ func runC15(ctx *h.Ctx) int {
 		k.Count("evaluations", 1)
 		if !res.OK() || rerr != nil {
 			k.Count("rejected", 1)
+			if !res.OK() {
+				rejectedValid(k, prog, res, false)
+			} else {
+				acceptedUnmatched(k)
+			}
 			return
 		}
 		k.Count("accepted", 1)
@@ -141,6 +146,8 @@ func runC15(ctx *h.Ctx) int {
 		for name := range want {
 			if len(f.Labels[name]) == 0 {
 				k.Count("written_label_not_in_output", 1)
+				k.Violation("written-label-missing", fmt.Sprintf("the name %q is written in the source but no label line of the output defines it (neither ':' nor '::')", name), map[string]interface{}{"output": res.Out})
+				return
 			}
 		}
 		k.Nontrivial(strings.Join(sig, ","))
